@@ -139,40 +139,84 @@ func triText(t Tri) string {
 	return "false"
 }
 
-// annotation returns the text of `// {...}` for the node, or nil.
-func annotation(e *Ex) []byte {
+// Style selects a spelling of the schema text. The zero value is the base spelling.
+type Style struct {
+	NL         []byte // line end: "\n" (default), "\r\n" or "\r"
+	Indent     []byte // one indentation unit (default two spaces)
+	Multi      bool   // annotations as /* {...} */ instead of // {...}
+	QuoteNames bool   // rule names in quotes
+	TrailComma bool   // trailing comma inside the rule object
+	Reverse    bool   // rules in reverse order
+	Comment    []byte // text of a user comment (# ...) put on its own line before every property / element line and at the end of lines without annotation
+	Block      bool   // the user comment is a ### block ### on its own line
+	Pad        []byte // blanks inside the rule object after '{' and before '}'
+}
+
+var curStyle Style
+
+func annotation(e *Ex) []byte { return annotationS(e, &curStyle) }
+
+// annotationS returns the text of the annotation for the node, or nil.
+func annotationS(e *Ex, st *Style) []byte {
 	var o out
 	n := 0
-	add := func(name string, val []byte) {
+	var all []Rule
+	if e.Any {
+		all = append(all, Rule{"type", []byte(`"any"`)})
+	}
+	if e.Optional != 0 {
+		all = append(all, Rule{"optional", []byte(triText(e.Optional))})
+	}
+	if e.Nullable != 0 {
+		all = append(all, Rule{"nullable", []byte(triText(e.Nullable))})
+	}
+	all = append(all, e.Rules...)
+	if st.Reverse {
+		for i, j := 0, len(all)-1; i < j; i, j = i+1, j-1 {
+			all[i], all[j] = all[j], all[i]
+		}
+	}
+	for _, r := range all {
 		if n > 0 {
 			o.s(", ")
 		}
-		o.s(name)
+		if st.QuoteNames {
+			o.s("\"")
+			o.s(r.Name)
+			o.s("\"")
+		} else {
+			o.s(r.Name)
+		}
 		o.s(": ")
-		o.bs(val)
+		o.bs(r.Value)
 		n++
 	}
-	if e.Any {
-		add("type", []byte(`"any"`))
-	}
-	if e.Optional != 0 {
-		add("optional", []byte(triText(e.Optional)))
-	}
-	if e.Nullable != 0 {
-		add("nullable", []byte(triText(e.Nullable)))
-	}
-	for _, r := range e.Rules {
-		add(r.Name, r.Value)
+	if n > 0 && st.TrailComma {
+		o.s(",")
 	}
 	if n == 0 && e.Note == nil {
 		return nil
 	}
 	var a out
-	a.s(" //")
+	if st.Multi {
+		a.s(" /*")
+	} else {
+		a.s(" //")
+	}
 	if n > 0 {
 		a.s(" {")
+		a.bs(st.Pad)
 		a.bs(o.b)
+		a.bs(st.Pad)
 		a.s("}")
+	}
+	if st.Multi {
+		if e.Note != nil {
+			a.s(" - ")
+			a.bs(e.Note)
+		}
+		a.s(" */")
+		return a.b
 	}
 	if e.Note != nil {
 		if n > 0 {
@@ -187,8 +231,37 @@ func annotation(e *Ex) []byte {
 
 func indent(o *out, d int) {
 	for i := 0; i < d; i++ {
-		o.s("  ")
+		if curStyle.Indent != nil {
+			o.bs(curStyle.Indent)
+		} else {
+			o.s("  ")
+		}
 	}
+}
+
+func nl(o *out) {
+	if curStyle.NL != nil {
+		o.bs(curStyle.NL)
+	} else {
+		o.s("\n")
+	}
+}
+
+// commentLine writes a user comment on its own line at depth d.
+func commentLine(o *out, d int) {
+	if curStyle.Comment == nil {
+		return
+	}
+	indent(o, d)
+	if curStyle.Block {
+		o.s("###")
+		o.bs(curStyle.Comment)
+		o.s("###")
+	} else {
+		o.s("#")
+		o.bs(curStyle.Comment)
+	}
+	nl(o)
 }
 
 // renderEx writes node e (value position) at nesting depth d; comma tells
@@ -213,8 +286,9 @@ func renderEx(o *out, e *Ex, d int, comma bool) {
 		}
 		o.s(open)
 		o.bs(ann)
-		o.s("\n")
+		nl(o)
 		for i, k := range e.Kids {
+			commentLine(o, d+1)
 			indent(o, d+1)
 			if e.Kind == KObj {
 				k.KeyOff = len(o.b)
@@ -223,7 +297,7 @@ func renderEx(o *out, e *Ex, d int, comma bool) {
 				o.s("\": ")
 			}
 			renderEx(o, k, d+1, i < len(e.Kids)-1)
-			o.s("\n")
+			nl(o)
 		}
 		indent(o, d)
 		o.s(close)
@@ -239,10 +313,20 @@ func renderEx(o *out, e *Ex, d int, comma bool) {
 	}
 }
 
-// Schema renders the schema text of an example tree.
+// Schema renders the schema text of an example tree in the base spelling.
 func Schema(e *Ex) []byte {
+	curStyle = Style{}
 	var o out
 	renderEx(&o, e, 0, false)
+	return o.b
+}
+
+// SchemaStyled renders the same abstract schema in another spelling.
+func SchemaStyled(e *Ex, st Style) []byte {
+	curStyle = st
+	var o out
+	renderEx(&o, e, 0, false)
+	curStyle = Style{}
 	return o.b
 }
 
